@@ -1193,6 +1193,8 @@ impl<'a> Sem<'a> {
     /// `d.f` for a def `d` of a class with a field of type `ty` (falls back to a literal)
     fn field_access(&mut self, ty: &Ty, depth: usize) {
         let mut cands: Vec<(String, usize, String, usize)> = Vec::new();
+        // class of the base for the candidates that are defs (other ways to write the same record)
+        let mut def_class: BTreeMap<String, String> = BTreeMap::new();
         for d in &self.defs {
             if self.name_is_local(&d.name) {
                 continue;
@@ -1201,6 +1203,7 @@ impl<'a> Sem<'a> {
                 for (fname, (fty, fdecl)) in &ci.fields {
                     if fty == ty && !self.p.decls[*fdecl].overridden && !self.uninit.contains(fdecl) {
                         cands.push((d.name.clone(), d.decl, fname.clone(), *fdecl));
+                        def_class.insert(d.name.clone(), ci.name.clone());
                     }
                 }
             }
@@ -1234,7 +1237,41 @@ impl<'a> Sem<'a> {
             return;
         }
         let (dn, dd, fname, fdecl) = cands[self.rng.below(cands.len())].clone();
-        self.ident(&dn, Role::Use(dd));
+        // the record may also be written as a cast of its name, as a class value, or as an element of a
+        // defset it is a member of - the field after the dot is the same field
+        let form = self.rng.below(8);
+        match (form, def_class.get(&dn).cloned()) {
+            (5, Some(c)) if self.on("field-of-cast") => {
+                let cd = self.class(&c).map(|ci| ci.decl);
+                self.w("!cast<");
+                match cd {
+                    Some(cd) => {
+                        self.ident(&c, Role::Use(cd));
+                    }
+                    None => self.w(&c),
+                }
+                self.w(&format!(">(\"{dn}\")"));
+                self.p.feat.bang_ops += 1;
+            }
+            (6, Some(c)) if depth < 2 && self.on("field-of-class-value") => {
+                self.class_ref(&c, depth + 1, true);
+            }
+            (7, Some(c)) if self.on("field-of-list-element") => {
+                let lists = self.visible_of_type(&Ty::List(Box::new(Ty::Class(c.clone()))));
+                match lists.first().cloned() {
+                    Some((ln, ld)) if self.p.decls[ld].kind == DeclKind::Defset => {
+                        self.ident(&ln, Role::Use(ld));
+                        self.w("[0]");
+                    }
+                    _ => {
+                        self.ident(&dn, Role::Use(dd));
+                    }
+                }
+            }
+            _ => {
+                self.ident(&dn, Role::Use(dd));
+            }
+        }
         self.w(".");
         self.ident(&fname, Role::Use(fdecl));
     }
